@@ -90,3 +90,12 @@ PROPS['C10'] = dict(
     families=[dict(name='crdt', corr='DState', runs=[('snapshot', 300, 5000)])],
     rule=_CRDT_RULE,
 )
+
+PROPS['C16'] = dict(
+    theorems=['sort_search_contract', 'file_auth_first_match', 'file_auth_iff', 'static_auth_iff'],
+    families=[dict(name='auth', corr='Auth', runs=[('exhaustive', 1, 1), ('random', 250, 4000)])],
+    level_text='Theorems: Go\'s sort.Search (exact bisection) returns the least index of a monotone predicate; the file handler (parse, stable sort by user digest, bisection, scan) returns for every file and candidate the mount point of the first line with that user and password digest, and accepts iff some line is configured for the pair (SHA-256 injective as explicit premise); the static handler accepts iff both match. Tied to the Go code by every table of <=2/3 entries over 4 users x 2 passwords x 3 line shapes in every order, and seeded tables of up to 15 lines with repeated users, empty mount points, 1- and 4-field lines and garbage digests, against 35-48 candidates each, through auth.FileHandler / StaticHandler on real files.',
+    level_note='Trusted: Coq kernel + vm_compute; harness (writes the file, own crypto/sha256 for the digest table), emitter, evaluator. Not modelled: CSV quoting (plain fields only). The refusal CONNACK and "creates no session" part of C16 is exercised end-to-end by the lifecycle family (C11) once the node model covers it.',
+    rule='exhaustive: see level text; random: 1-6 (every 7th case 6-15) lines. Non-trivial: at least one candidate accepted.',
+    assumptions=['SHA-256 is injective on the strings involved (premise of the iff theorems)'],
+)
